@@ -151,4 +151,4 @@ class WeightedSum(Component):
             self._out_data = result
             self._last_update = time
 
-        return self._out_data
+        return self._out_data.copy()
